@@ -2191,7 +2191,6 @@ package connect
 //@ func (*connectWireError).UnmarshalJSON(e, data) err
 //@   tags C02, C05, C06
 //@   requires e != nil
-//@   nosafety truncation
 //@   assigns e.code, e.err, e.details
 //@   ensures err == nil && wire.Code == "" ==> e.code == old(e.code) && e.err == old(e.err)   // label: an-empty-code-leaves-the-error-untouched
 //@   ensures err != nil && callres("(*protoJSONCodec).Unmarshal", 1) != nil ==> called("json.Unmarshal", 1) && (callres("json.Unmarshal", 1) != nil || called("(*Code).UnmarshalText", 1))   // label: an-error-whose-details-cannot-be-parsed-is-given-up-on-only-if-its-code-and-message-cannot-be-read-either   // tags: C02, C05, C06
